@@ -159,6 +159,7 @@ var idle int64 = 1
 func classifyStall(dump string) string {
 	waitingOnSim := false
 	mutexWaiters := 0
+	busy := false
 	for _, blk := range strings.Split(dump, "\n\n") {
 		nl := strings.IndexByte(blk, '\n')
 		if nl < 0 {
@@ -172,6 +173,10 @@ func classifyStall(dump string) string {
 			mutexWaiters++
 			continue
 		}
+		if (strings.Contains(head, "[running") || strings.Contains(head, "[runnable")) && strings.Contains(blk, "github.com/gocql/gocql.") {
+			// a driver goroutine has been computing (or allocating) for the whole watchdog period
+			busy = true
+		}
 		if strings.Contains(blk, "verifsim/simnet.") || strings.Contains(blk, "verifsim/kernel.(*Kernel).Yield") ||
 			strings.Contains(blk, "verifsim/kernel.(*Task).Step") {
 			waitingOnSim = true
@@ -182,6 +187,9 @@ func classifyStall(dump string) string {
 	}
 	if mutexWaiters > 0 {
 		return "synctest-mutex-artefact"
+	}
+	if busy {
+		return "driver-busy-loop"
 	}
 	return "unknown"
 }
